@@ -88,10 +88,14 @@ class Ctx:
                     env[nm] = self.alg.sym(v2, **self.spec["consts"][v2])
                 elif k2 == "const" and isinstance(v2, (int, float, Fraction)) and not isinstance(v2, bool):
                     env[nm] = Fraction(repr(v2)) if isinstance(v2, float) else v2
+            if name in attrs:
+                continue
             try:
-                attrs[name] = self.interp.eval(val.expr, env, init, 0)
+                v = self.interp.eval(val.expr, env, init, 0)
             except AnalysisError:
-                pass            # not a numeric expression of the parameters: left unknown (an error if read)
+                continue        # not a numeric expression of the parameters: left unknown (an error if read)
+            if self.dom.is_value(v) or isinstance(v, (int, Fraction)):
+                attrs[name] = v
 
     # ---- symbolic states
     def prim(self, tag):
